@@ -364,6 +364,27 @@ def oracle_stop(m, spec, res, T):
                                     'pid 0: setUp(%s) after the first bad outcome (%s)'
                                     % (ev[2], kind)))
                 break
+    if not parallel and res.children and opt.get('x'):
+        # a sequential run whose later layers are resumed in subprocesses (one at a time, in
+        # order): once the parent or one of the children has seen its first bad outcome no
+        # further layer may be set up - in whichever process
+        byp = C.by_pid(res.trace)
+        bad_pid = None
+        for pid in sorted(byp):
+            has_bad = any(o['pid'] == pid and o['bad'] for o in T.occs) or \
+                any(p == pid for p, l, h, x in T.layer_failures)
+            if has_bad:
+                bad_pid = pid
+                break
+        if bad_pid is not None:
+            for pid in sorted(byp):
+                if pid > bad_pid and any(ev[1] in ('layer.setUp', 'test.run') for ev in byp[pid]):
+                    viols.append(C.viol(
+                        'C16/layer-set-up-after-first-bad/resumed',
+                        'sequential run with resumed layers: process %d had the first bad '
+                        'outcome, yet the layer of process %d was still set up and run'
+                        % (bad_pid, pid)))
+                    break
     viols += [C.viol('C16/' + v['sig'][4:], v['msg'])
               for v in oracle_layers(m, res, T, only_leftover=True)]
     if res.raised:
